@@ -41,8 +41,9 @@ class Bind(C):
 
 class Prim(C):
     """a primitive computation given as Coq text at a fixed level"""
-    def __init__(self, text, level):
+    def __init__(self, text, level, ro=False):
         self.text, self.level = text, level
+        self.ro = ro          # total and read-only: may be evaluated eagerly
 
 
 class If(C):
@@ -119,6 +120,23 @@ class AppK(C):
         return self.level_ref.level if self.level_ref is not None else 0
 
 
+def is_ro(c):
+    """computation is total and read-only (safe to evaluate eagerly / reorder)"""
+    if isinstance(c, Ret):
+        return True
+    if isinstance(c, Let):
+        return is_ro(c.body)
+    if isinstance(c, Bind):
+        return is_ro(c.c1) and is_ro(c.c2)
+    if isinstance(c, Prim):
+        return c.ro or c.level == 0
+    if isinstance(c, If):
+        return is_ro(c.a) and is_ro(c.b)
+    if isinstance(c, MatchOpt):
+        return is_ro(c.csome) and is_ro(c.cnone)
+    return False
+
+
 def _ind(s, n=2):
     pad = ' ' * n
     return '\n'.join(pad + l if l else l for l in s.split('\n'))
@@ -151,6 +169,8 @@ def render(c, L):
             # pure sub-computation: render at level 0 and let-bind
             return _let(c.pat, render(c.c1, 0), render(c.c2, L))
         r1 = render(c.c1, l1)
+        if isinstance(c.c1, Raise) and c.pat == '_':
+            r1 = f'(@Err unit {paren(c.c1.exn)})' if l1 == 1 else f'(@raise _ unit {paren(c.c1.exn)})'
         if l1 < L:
             r1 = f'{LIFT[(l1, L)]} {paren(r1)}'
         r2 = render(c.c2, L)
